@@ -2,6 +2,7 @@
 From Coq Require Import List NArith ZArith Bool.
 Import ListNotations.
 Require Import Aurora.Consts Aurora.C37.Model Aurora.C37.Proofs.
+Require Aurora.C37.Lock.
 Local Open Scope N_scope.
 
 Definition MaxPO : N := Z.to_N Consts.boson_MaxPO.
@@ -128,6 +129,19 @@ Theorem C37_routetab_relay_total : forall (self : list N) (is_conn fwd_ok : bool
   rt_relay MaxPO self is_conn fwd_ok m <> Panicked.
 Proof. intros. apply rt_relay_total. Qed.
 Print Assumptions C37_routetab_relay_total.
+
+(** concurrent ChunkInfoResp handlers and the pull queue (Lock.v): with the exclusive lock the code
+    holds around [queueProcess], any number of handlers from any queue state never pop an empty queue *)
+Theorem C37_queue_exclusive_lock_safe : forall (maxp nthreads : nat) (q : Lock.qstate),
+  exists q', Lock.run_exclusive maxp q nthreads = Some q'.
+Proof. intros. apply Lock.exclusive_safe. Qed.
+Print Assumptions C37_queue_exclusive_lock_safe.
+
+(** the property is refuted for the variant that takes the shared lock instead (seeded change C37-3):
+    a schedule of two handlers over a one-element backlog reaches the empty-queue pop *)
+Theorem C37_queue_shared_lock_refuted : exists q sched, Lock.run_shared 10 q [Lock.Idle; Lock.Idle] sched = Lock.Panic.
+Proof. exact Lock.shared_unsafe. Qed.
+Print Assumptions C37_queue_shared_lock_refuted.
 
 (** DistanceCmp as modelled here (explicit index panics) is the C20 function on all inputs *)
 Theorem C37_distance_cmp_is_C20 : forall a x y : list N,
